@@ -73,7 +73,7 @@ def harness(args, timeout=3600, env=None):
 
 
 SWITCHES_EXEC = ['SwResetCanCatchField', 'SwResetExitFieldP', 'SwResetExitFieldV', 'SwResetExitElemP',
-                 'SwResetExitElemV', 'SwValStructArgPtr', 'SwPtrFreshCtx', 'SwNestedSourceTag', 'SwEmptyRecordSourceTag', 'SwRunAllTests']
+                 'SwResetExitElemV', 'SwValStructArgPtr', 'SwPtrFreshCtx', 'SwNestedSourceTag', 'SwEmptyRecordSourceTag', 'SwFlatNested', 'SwRunAllTests']
 
 
 def exec_consts(off=(), soft='run', extra=None):
